@@ -45,6 +45,9 @@ type Solver struct {
 	lastModel map[string]uint64
 	Fallbacks int
 	FallbackT time.Duration
+	SendT     time.Duration // time blocked writing to the solver (it is busy digesting earlier commands)
+	SentBytes int64
+	CPU       time.Duration // solver process CPU time (set by Close)
 }
 
 func NewSolver(bin string, timeoutMs int, logPath string) (*Solver, error) {
@@ -104,6 +107,9 @@ func (s *Solver) Close() {
 	if s.cmd != nil && s.cmd.Process != nil {
 		s.cmd.Process.Kill()
 		s.cmd.Wait()
+		if ps := s.cmd.ProcessState; ps != nil {
+			s.CPU = ps.UserTime() + ps.SystemTime()
+		}
 	}
 	if s.log != nil {
 		s.log.Close()
@@ -114,9 +120,12 @@ func (s *Solver) send(txt string) {
 	if s.log != nil {
 		s.log.WriteString(txt)
 	}
+	t0 := time.Now()
 	if _, err := io.WriteString(s.in, txt); err != nil {
 		panic(fmt.Sprintf("solver write: %v", err))
 	}
+	s.SendT += time.Since(t0)
+	s.SentBytes += int64(len(txt))
 }
 
 func (s *Solver) flushDefs() {
